@@ -550,6 +550,26 @@ pub fn run(args: &[String]) {
     println!("{}", out.to_string());
 }
 
+/// rqmc c11-dump <space> <start> <end> <step> <outfile>: the inputs of a space as length-prefixed records
+/// (u32 index, u32 length, bytes) - the CLI-level sweep feeds the same inputs to the real binary
+pub fn dump(args: &[String]) {
+    let sp = space_of(&args[0]);
+    let n = space_size(sp);
+    let start: usize = args[1].parse().unwrap();
+    let end: usize = args[2].parse::<usize>().unwrap().min(n);
+    let step: usize = args[3].parse().unwrap();
+    let mut out = std::io::BufWriter::new(std::fs::File::create(&args[4]).unwrap());
+    let mut i = start;
+    while i < end {
+        let inp = input_of(sp, i);
+        out.write_all(&(i as u32).to_le_bytes()).unwrap();
+        out.write_all(&(inp.len() as u32).to_le_bytes()).unwrap();
+        out.write_all(&inp).unwrap();
+        i += step;
+    }
+    println!("{}", n);
+}
+
 /// rqmc parse1 <file>: replay helper - parse (strip 0) and apply like one C11 case, print the verdict
 pub fn parse1(args: &[String]) {
     COUNTING.store(true, Ordering::SeqCst);
